@@ -349,7 +349,42 @@ func (fi *FuncInfo) loadRep1(u *ssa.UnOp) ssa.Value {
 	if key == "" {
 		return u
 	}
-	kc := classify(u.X)
+	if r := fi.valueAt(u.X, key, u, u); r != nil {
+		return r
+	}
+	return u
+}
+
+// FieldValueAt: the value that field #field of the object base points to holds
+// immediately before instruction at (the value last stored to it, or an earlier
+// load of it, with no possible write in between), or nil. Used to evaluate a
+// callee's read of a receiver field in the caller's frame.
+func (fi *FuncInfo) FieldValueAt(base ssa.Value, field int, at ssa.Instruction) ssa.Value {
+	bk := fi.baseKey(base)
+	if bk == "" {
+		return nil
+	}
+	key := bk + ".f" + itoa(field)
+	// an address expression of this function with that key (for the kill class)
+	var addr ssa.Value
+	for _, b := range fi.Fn.Blocks {
+		for _, in := range b.Instrs {
+			if fa, ok := in.(*ssa.FieldAddr); ok && fa.Field == field && fi.addrKey(fa) == key {
+				addr = fa
+			}
+		}
+	}
+	if addr == nil {
+		return nil
+	}
+	return fi.valueAt(addr, key, at, nil)
+}
+
+// valueAt: representative value of location (addr, key) just before `at`;
+// self is the load instruction being resolved (excluded from candidates), or nil.
+func (fi *FuncInfo) valueAt(addr ssa.Value, key string, at ssa.Instruction, self *ssa.UnOp) ssa.Value {
+	u := at
+	kc := classify(addr)
 	// candidates: earlier loads and stores of the same key that dominate u
 	type cand struct {
 		in  ssa.Instruction
@@ -361,12 +396,12 @@ func (fi *FuncInfo) loadRep1(u *ssa.UnOp) ssa.Value {
 			continue
 		}
 		for _, in := range b.Instrs {
-			if in == ssa.Instruction(u) {
+			if in == u {
 				break
 			}
 			switch x := in.(type) {
 			case *ssa.UnOp:
-				if x.Op == token.MUL && x != u && dominatesInstr(fi, x, u) && fi.addrKey(x.X) == key {
+				if x.Op == token.MUL && x != self && dominatesInstr(fi, x, u) && fi.addrKey(x.X) == key {
 					cands = append(cands, cand{x, x})
 				}
 			case *ssa.Store:
@@ -377,13 +412,13 @@ func (fi *FuncInfo) loadRep1(u *ssa.UnOp) ssa.Value {
 		}
 	}
 	if len(cands) == 0 {
-		return u
+		return nil
 	}
 	// killers in the function
 	var killers []ssa.Instruction
 	for _, b := range fi.Fn.Blocks {
 		for _, in := range b.Instrs {
-			if fi.mayKill(in, u.X, kc) {
+			if fi.mayKill(in, addr, kc) {
 				killers = append(killers, in)
 			}
 		}
@@ -410,5 +445,5 @@ func (fi *FuncInfo) loadRep1(u *ssa.UnOp) ssa.Value {
 		}
 		// a killed nearest candidate means farther ones are killed too, unless the killer lies before it; keep scanning
 	}
-	return u
+	return nil
 }
